@@ -932,6 +932,23 @@ public:
               J.attribute("size", (int64_t)C.getTypeSizeInChars(CT).getQuantity());
             J.attribute("const", T.isConstQualified());
             J.attribute("volatile", T.isVolatileQualified());
+            {
+              // __attribute__((may_alias)) on a typedef in the sugar chain
+              bool MA = false;
+              QualType W = T;
+              for (int Guard = 0; Guard < 16; ++Guard) {
+                const auto *TT = W->getAs<TypedefType>();
+                if (!TT)
+                  break;
+                if (TT->getDecl()->hasAttr<MayAliasAttr>()) {
+                  MA = true;
+                  break;
+                }
+                W = TT->getDecl()->getUnderlyingType();
+              }
+              if (MA)
+                J.attribute("ma", true);
+            }
           });
         }
       });
